@@ -43,7 +43,7 @@ class RngProxy:
         return attr
 
 
-def run_case(seed, tid):
+def run_case(seed, tid, marathon=False):
     from eudoxia.workload import WorkloadGenerator
     from eudoxia.simulator import parse_args_with_defaults
     rng = random.Random(seed)
@@ -60,6 +60,9 @@ def run_case(seed, tid):
         # scheduler / executor settings are part of the parameter set the generator is built from; the workload must not depend on them
         "ram_gb_per_pool": rng.choice([0.5, 8, 32, 256, 1000]), "cpus_per_pool": rng.choice([1, 4, 64]), "num_pools": rng.choice([1, 2, 8]),
         "scheduler_algo": rng.choice(["naive", "priority", "overbook"]), "multi_operator_containers": rng.random() < 0.5})
+    if marathon:          # ONE generator instance emits more than 2^16 pipelines (64 per event, an event every tick): identity that wraps, caps or recycles
+        tps, nticks, wsm = 1000, rng.choice([1030, 1040]), 0.0004
+        params = parse_args_with_defaults(dict(params, ticks_per_second=tps, waiting_seconds_mean=wsm, num_pipelines=64, num_operators=1))
     gen = WorkloadGenerator(**params)
     log = []
     gen.rng = RngProxy(gen.rng, log)
@@ -85,10 +88,29 @@ def run_case(seed, tid):
         else:
             stray += len(calls)
     tot = ip + qp + bp
-    hdr = {"kind": "hdr", "tid": tid, "seed": seed, "tps": tps, "nticks": nticks, "num_pipelines": params["num_pipelines"], "num_operators": params["num_operators"],
+    hdr = {"kind": "hdr", "tid": tid, "seed": seed, "marathon": marathon, "tps": tps, "nticks": nticks, "num_pipelines": params["num_pipelines"], "num_operators": params["num_operators"],
            "probs": [micro(ip), micro(qp), micro(bp)], "probs_norm": [micro(ip / tot), micro(qp / tot), micro(bp / tot)],
            "ratio": micro(params["cpu_io_ratio"]), "mean_ticks": int(wsm * tps)}
     return [hdr] + [dict(ev, kind="ev", tid=tid) for ev in events] + [{"kind": "end", "tid": tid, "nticks": nticks, "stray_calls": stray}]
+
+
+def ids_case(seed, tid, n_events=1040):
+    """More than 2^16 pipelines from ONE generator instance, reported by identifier only (freshness; the draw clauses are run_case's)."""
+    from eudoxia.workload import WorkloadGenerator
+    from eudoxia.simulator import parse_args_with_defaults
+    rng = random.Random(seed)
+    per = rng.choice([64, 80])
+    gen = WorkloadGenerator(**parse_args_with_defaults({"ticks_per_second": 1000, "waiting_seconds_mean": 0.0004, "num_pipelines": per,
+                                                        "num_operators": rng.choice([1, 2]), "random_seed": rng.randrange(10**6)}))
+    lines, buf, start = [{"kind": "idhdr", "tid": tid, "seed": seed, "per_event": per}], [], 1
+    for t in range(n_events):
+        for p in gen.run_one_tick():
+            buf.append(str(p.pipeline_id))
+        if len(buf) >= 200 or t == n_events - 1:          # short lines: TLC's Json module is quadratic in the length of an array
+            lines.append({"kind": "ids", "tid": tid, "from": start, "ids": buf})
+            start += len(buf)
+            buf = []
+    return lines
 
 
 def pair_case(seed, tid):
@@ -114,18 +136,27 @@ def pair_case(seed, tid):
     return {"kind": "pair", "tid": tid, "seed": seed, "lo": out["lo"], "hi": out["hi"]}
 
 
+def _special(args):
+    kind, seed, tid = args
+    common.import_repo()
+    return ids_case(seed, tid) if kind == "ids" else run_case(seed, tid, marathon=True)
+
+
 def _chunk(args):
     seeds, tid0 = args
     common.import_repo()
     return [run_case(sd, tid0 + i) if i % 10 else [pair_case(sd, tid0 + i)] for i, sd in enumerate(seeds)]
 
 
-def gen_lines(n, seed):
+def gen_lines(n, seed, n_ids=0, n_marathon=0):
     import multiprocessing as mp
     rng = random.Random(seed)
     seeds = [rng.randrange(2**31) for _ in range(n)]
     per = max(1, n // 32)
     jobs = [(seeds[i:i + per], i) for i in range(0, n, per)]
+    special = [("ids", rng.randrange(2**31), 10**6 + i) for i in range(n_ids)] + [("marathon", rng.randrange(2**31), 2 * 10**6 + i) for i in range(n_marathon)]
     with mp.get_context("fork").Pool(common.NCPU) as pool:
+        sp = pool.map_async(_special, special)
         out = pool.map(_chunk, jobs)
-    return [x for ch in out for x in ch]
+        sp = sp.get()
+    return [x for ch in out for x in ch] + sp
